@@ -23,7 +23,7 @@ def mapArgVal (k : Kind) (v : Val) : Val :=
   | _, v => v
 
 /-- `first_equal_index`: number of leading runtime elements that are printed — up to
-    and including the last one that differs from the default. -/
+    and including the last one that differs from the default (the runtime elements as `map_arg_vals` left them). -/
 def firstEqualIndex : List Val → List Val → Nat → Nat → Nat
   | d :: ds, r :: rs, i, acc => firstEqualIndex ds rs (i + 1) (if d = r then acc else i + 1)
   | _, _, _, acc => acc
@@ -45,7 +45,11 @@ def saveItem (s : State) : Item → Option Line
     let ds := idx.map fun i => evalDflt (app.param i) s
     let rs := idx.map fun i => s i
     if ds = rs then none else
-    let n := firstEqualIndex ds rs 0 0
+    -- `map_arg_vals` runs BEFORE `first_equal_index` (write_msg in get_changed_values): the suffix that is cut off is
+    -- compared with the option indices already replaced by their symbols — an rArrayOption element holding an option's
+    -- index never equals its (canonicalised, int) default there and is always written
+    let ms := idx.map fun i => mapArgVal (app.param i).kind (s i)
+    let n := firstEqualIndex ds ms 0 0
     some ⟨base, .arr ((idx.take n).map fun i => mapArgVal (app.param i).kind (s i))⟩
 
 /-- address under which the walk reports the port -/
